@@ -5,6 +5,7 @@ R-ROLLBACK ispec.decode undoes its byte append / attribute sets when the hook re
 R-GLOBALW  decode-time code (hooks, preconditions and what they reach) writes no module-level state
 """
 import ast
+import re
 
 from ..cfg import CFG, _walk_no_nested
 from ..harness import RuleOut
@@ -39,10 +40,10 @@ def _private_attr(node, name):
 def pending_attr(cls):
     """name of the pending-instruction attribute: the private attribute initialised to None in
     __init__ and passed as `i=` to decode."""
-    call = cls.methods.get("__call__")
-    if call is None:
+    call = cls.methods.get("__call__") if not isinstance(cls, ast.AST) else None
+    if call is None and not isinstance(cls, ast.AST):
         raise AnalysisError("anchor vanished: disassembler.__call__")
-    for n in ast.walk(call.node):
+    for n in ast.walk(call.node if call is not None else cls):
         if isinstance(n, ast.Call) and isinstance(n.func, ast.Attribute) and n.func.attr == "decode":
             for k in n.keywords:
                 if k.arg == "i" and isinstance(k.value, ast.Attribute) and isinstance(k.value.value, ast.Name) and k.value.value.id == "self":
@@ -62,7 +63,7 @@ def r_reset(repo, tier):
     if cls is None:
         raise AnalysisError("anchor vanished: class disassembler")
     f = repo.func(CORE, "disassembler.__call__")
-    attr = pending_attr(cls)
+    attr = pending_attr(f.node)
 
     def may_raise(node):
         if isinstance(node, ast.Raise):
@@ -71,10 +72,13 @@ def r_reset(repo, tier):
             return True
         for n in _walk_no_nested(node):
             if isinstance(n, ast.Call):
-                callee = norm(n.func)
+                callee = re.sub(r"__inl\d+", "", norm(n.func))
                 if callee in NORAISE_CALLEES:
                     continue
                 if callee == "self":  # tail recursion: its own exits are covered inductively
+                    continue
+                # dict.get on a local (a node of the spec tree), whatever the local is called
+                if isinstance(n.func, ast.Attribute) and n.func.attr == "get" and isinstance(n.func.value, ast.Name) and n.func.value.id not in ("self",):
                     continue
                 return True
         return False
@@ -138,10 +142,14 @@ def r_reset(repo, tier):
     out.stats["cfg_nodes"] = len(cfg.nodes)
     if n_exits < 3:
         raise AnalysisError("R-RESET: only %d exits found in disassembler.__call__" % n_exits)
-    # who-may-write: the attribute is stored only in __init__ and __call__
+    # who-may-write: the attribute is stored only in __init__, __call__ and the private helpers __call__ expands into
+    from ..inline import helpers_of
+
+    raw_call = getattr(f, "raw", None) or f
+    allowed = {"__init__", "__call__"} | {h.name for h in helpers_of(repo, raw_call) if h.cls is cls}
     for meth in cls.methods.values():
         for n in ast.walk(meth.node):
-            if isinstance(n, ast.Attribute) and isinstance(n.ctx, ast.Store) and n.attr == attr and meth.name not in ("__init__", "__call__"):
+            if isinstance(n, ast.Attribute) and isinstance(n.ctx, ast.Store) and n.attr == attr and meth.name not in allowed:
                 out.report(f.file, meth.dqual, "store self.%s" % attr, n.lineno, "pending-prefix attribute written outside __init__/__call__")
     return out
 
@@ -238,6 +246,8 @@ def r_rollback(repo, tier):
                         e = e.args[0]
                     elif isinstance(e, ast.Call) and isinstance(e.func, ast.Attribute) and e.func.attr in ("items", "keys"):
                         e = e.func.value
+                    elif isinstance(e, ast.Call) and e.args and isinstance(e.args[0], ast.Attribute) and isinstance(e.args[0].value, ast.Name) and e.args[0].value.id == "self":
+                        e = e.args[0]  # self._extract(self.iattr, bits): a helper iterating the same dict
                     else:
                         return norm(e)
             sset = {src(x) for x in sets}
